@@ -3,7 +3,7 @@
    M = Model/C02.v (ExpressionEvaluator over the tables generated from the source),
    S = Spec/C02.v (ISO C). *)
 From Coq Require Import ZArith Bool String List.
-From CBI Require Import Lib.Data Lib.Res Gen.C02_tables Model.C02 Model.C02lex Spec.C02 Proofs.C02 Proofs.C02s Proofs.C02l Proofs.C02g Proofs.C02x.
+From CBI Require Import Lib.Data Lib.Res Gen.C02_tables Model.C02 Model.C02lex Spec.C02 Proofs.C02 Proofs.C02s Proofs.C02l Proofs.C02g Proofs.C02x Proofs.C02f.
 From CBI Require Model.C01 Spec.C01 Proofs.C01.
 Import ListNotations.
 Local Open Scope string_scope.
@@ -205,6 +205,15 @@ Theorem C02_text_to_value_partial :
     evaluate_text env (join (tokens dt_source 0 e)) = OVal v.
 Proof. exact text_to_value. Qed.
 Print Assumptions C02_text_to_value_partial.
+
+(* Fuel: for EVERY token list and EVERY text - well-formed or not - the fuel the model gives itself
+   suffices; "out of fuel" is unreachable, so M is a total function of its input. *)
+Theorem C02_fuel_suffices :
+  (forall ts, evaluate ts <> OOutOfFuel) /\
+  (forall s, tokenize s <> None) /\
+  (forall env s, evaluate_text env s <> OOutOfFuel).
+Proof. exact (conj evaluate_never_out_of_fuel (conj tokenize_total evaluate_text_never_out_of_fuel)). Qed.
+Print Assumptions C02_fuel_suffices.
 
 (* non-vacuity: 2 + 3 * 4 - 1 is 13, and -7 / 2 is -3 *)
 Example C02_nonvacuous :
